@@ -341,16 +341,15 @@ def lcGraphOperations (fuel : Nat) (n : Nat) (A : Adj) (v : List Bool) : Except 
     | .error e => .error e
     | .ok d => .ok (s ++ d.flatMap fun p => [p.1, p.2, p.1])
 
-/-- `find_lc_operations(adj1, adj2, mode, seed)`.  As coded (`fromFirst = false`) the R matrix is built from
-    `adj_matrix2` — defect D42; `fromFirst = true` is the repaired function (R from `adj_matrix1`), kept so that the
-    correspondence follows the repository when the one-line fix is applied. -/
-def findLcOperations (fuel : Nat) (a b : BMat) (mode : Mode) (draws : List Bool) (fromFirst : Bool := false) :
+/-- `find_lc_operations(adj1, adj2, mode, seed)`: the R matrix is built from the *first* graph (repository commit
+    864255d, defect D44; before the fix it was built from `adj_matrix2` — `legacy = true` reproduces that). -/
+def findLcOperations (fuel : Nat) (a b : BMat) (mode : Mode) (draws : List Bool) (legacy : Bool := false) :
     Except Err (List Nat) :=
   match isLcEquivalent a b mode draws with
   | .error e => .error e
   | .ok out =>
     match out.sol with
-    | some s => if fromFirst then lcGraphOperations fuel a.r a.f s else lcGraphOperations fuel b.r b.f s
+    | some s => if legacy then lcGraphOperations fuel b.r b.f s else lcGraphOperations fuel a.r a.f s
     | none => .error .value
 
 /-! ## gates on graph states (verified tableau semantics of Model/Tableau.lean) -/
